@@ -401,7 +401,11 @@ func main() {
 					if err != nil {
 						return 0
 					}
-					n, _ := strconv.ParseInt(strings.Fields(string(b))[0], 10, 64)
+					fs := strings.Fields(string(b))
+					if len(fs) == 0 {
+						return 0 // the helper was ended between creating the file and writing it
+					}
+					n, _ := strconv.ParseInt(fs[0], 10, 64)
 					return n
 				}
 				switch sp.Kind {
@@ -473,7 +477,7 @@ func main() {
 			// no helper may survive
 			pfs, _ := filepath.Glob(filepath.Join(dir, "pid*"))
 			for _, pf := range pfs {
-				if strings.HasSuffix(pf, ".quit") || strings.HasSuffix(pf, ".ready") {
+				if strings.HasSuffix(pf, ".quit") || strings.HasSuffix(pf, ".ready") || strings.Contains(filepath.Base(pf), ".tmp") {
 					continue
 				}
 				if pid, alive := tsh.PidAlive(pf); alive {
